@@ -471,7 +471,7 @@ func ruleR19a(c *Ctx) {
 				var trail []string
 				pr := &PathRule{
 					Edge: func(pc *PathCtx, s uint64, from *ssa.BasicBlock, si int) (uint64, bool) {
-						for _, f := range edgeFacts(from, si) {
+						for _, f := range pc.edgeFacts(from, si) {
 							fld, _ := anyFieldRead(f.X)
 							if fld == nil || fld.Name() != "Method" || fld.Pkg() == nil || fld.Pkg().Path() != "net/http" {
 								continue
@@ -554,7 +554,7 @@ func ruleR19b(c *Ctx) {
 	nReg, nGate := 0, 0
 	pr := &PathRule{
 		Edge: func(pc *PathCtx, s uint64, from *ssa.BasicBlock, si int) (uint64, bool) {
-			for _, f := range edgeFacts(from, si) {
+			for _, f := range pc.edgeFacts(from, si) {
 				if f.X == ssa.Value(roParam) {
 					if b, ok := constBool(f.Y); ok && (b == f.Eq) == false {
 						s |= roFalse
